@@ -165,8 +165,8 @@ func build(f verzoo.Feat) (*version, error) {
 	return v, nil
 }
 
-func accepts(v *version, text string) (bool, string) {
-	q, err := graphql.Parse(text, map[string]interface{}{})
+func accepts(v *version, text string, vals map[string]interface{}) (bool, string) {
+	q, err := graphql.Parse(text, vals)
 	if err != nil {
 		return false, "parse: " + err.Error()
 	}
@@ -274,10 +274,13 @@ func merge(svcs [][]*version, snames []string, vnames [][]string) Out {
 // ---- queries
 
 type Lit struct {
-	K      string         `json:"k"` // int | null | enum | obj | str
+	K      string         `json:"k"` // int | null | enum | obj | str | list
 	V      string         `json:"v"`
 	Fields map[string]Lit `json:"fields"`
+	Elems  []Lit          `json:"elems"` // list: int or null elements (a list with a null travels as a variable)
 }
+
+func leaf(k, v string) Lit { return Lit{K: k, V: v, Fields: map[string]Lit{}, Elems: []Lit{}} }
 type Sub struct {
 	On    string `json:"on"` // "" or the type condition of an inline fragment
 	Field string `json:"field"`
@@ -299,8 +302,36 @@ type Part struct {
 	Subs []Sub  `json:"subs"`
 }
 
-func renderLit(l Lit) string {
+// vars collects the lists that have to travel as variables (thunder's parser has no null literal).
+type vars struct {
+	decl []string
+	vals map[string]interface{}
+}
+
+func renderLit(l Lit, vs *vars) string {
 	switch l.K {
+	case "list":
+		hasNull := false
+		var parts []string
+		var val []interface{}
+		for _, e := range l.Elems {
+			if e.K == "null" {
+				hasNull = true
+				val = append(val, nil)
+			} else {
+				var n float64
+				fmt.Sscan(e.V, &n)
+				val = append(val, n)
+			}
+			parts = append(parts, e.V)
+		}
+		if !hasNull {
+			return "[" + strings.Join(parts, ", ") + "]"
+		}
+		name := fmt.Sprintf("v%d", len(vs.decl)+1)
+		vs.decl = append(vs.decl, "$"+name+": [int64]")
+		vs.vals[name] = val
+		return "$" + name
 	case "obj":
 		var names []string
 		for n := range l.Fields {
@@ -309,7 +340,7 @@ func renderLit(l Lit) string {
 		sort.Strings(names)
 		parts := []string{}
 		for _, n := range names {
-			parts = append(parts, n+": "+renderLit(l.Fields[n]))
+			parts = append(parts, n+": "+renderLit(l.Fields[n], vs))
 		}
 		return "{" + strings.Join(parts, ", ") + "}"
 	case "str":
@@ -324,21 +355,35 @@ func randLit(r *rand.Rand, name string) Lit {
 	case "id", "min", "max":
 		switch r.Intn(8) {
 		case 1:
-			return Lit{K: "str", V: "x", Fields: map[string]Lit{}}
+			return leaf("str", "x")
 		default:
-			return Lit{K: "int", V: fmt.Sprint(1 + r.Intn(3)), Fields: map[string]Lit{}}
+			return leaf("int", fmt.Sprint(1+r.Intn(3)))
 		}
+	case "ids":
+		l := Lit{K: "list", Fields: map[string]Lit{}, Elems: []Lit{}}
+		for n := r.Intn(3); n > 0; n-- {
+			if r.Intn(3) == 0 {
+				l.Elems = append(l.Elems, leaf("null", "null"))
+			} else {
+				l.Elems = append(l.Elems, leaf("int", fmt.Sprint(1+r.Intn(3))))
+			}
+		}
+		return l
 	case "kind":
-		return Lit{K: "enum", V: []string{"A", "B", "C", "D"}[r.Intn(4)], Fields: map[string]Lit{}}
+		return leaf("enum", []string{"A", "B", "C", "D"}[r.Intn(4)])
 	default: // filter
-		l := Lit{K: "obj", Fields: map[string]Lit{}}
-		for _, f := range []string{"min", "max", "zzz"} {
+		l := Lit{K: "obj", Fields: map[string]Lit{}, Elems: []Lit{}}
+		for _, f := range []string{"min", "max", "zzz", "ids"} {
 			p := 2
 			if f == "zzz" {
 				p = 10
 			}
 			if r.Intn(p) == 0 {
-				l.Fields[f] = randLit(r, "min")
+				if f == "ids" {
+					l.Fields[f] = randLit(r, "ids")
+				} else {
+					l.Fields[f] = randLit(r, "min")
+				}
 			}
 		}
 		return l
@@ -349,7 +394,7 @@ func randQuery(r *rand.Rand) Query {
 	q := Query{Args: map[string]Lit{}, Subs: []Sub{}, Parts: map[string]Part{}, Accept: map[string]bool{}, Why: map[string]string{}}
 	q.Field = []string{"item", "item", "item", "items", "count", "any", "nope"}[r.Intn(7)]
 	if q.Field == "item" || r.Intn(10) == 0 {
-		for _, a := range []string{"id", "filter", "kind", "bogus"} {
+		for _, a := range []string{"id", "filter", "kind", "ids", "bogus"} {
 			p := 2
 			if a == "bogus" {
 				p = 12
@@ -376,11 +421,12 @@ func randQuery(r *rand.Rand) Query {
 			q.Subs = append(q.Subs, Sub{Field: "id"})
 		}
 	}
-	q.Text = render(q.Field, q.Args, q.Subs)
+	q.Text, _ = render(q.Field, q.Args, q.Subs)
 	return q
 }
 
-func render(field string, args map[string]Lit, subs []Sub) string {
+func render(field string, args map[string]Lit, subs []Sub) (string, map[string]interface{}) {
+	vs := &vars{vals: map[string]interface{}{}}
 	q := struct {
 		Field string
 		Args  map[string]Lit
@@ -396,7 +442,7 @@ func render(field string, args map[string]Lit, subs []Sub) string {
 		sort.Strings(names)
 		parts := []string{}
 		for _, n := range names {
-			parts = append(parts, n+": "+renderLit(q.Args[n]))
+			parts = append(parts, n+": "+renderLit(q.Args[n], vs))
 		}
 		b.WriteString("(" + strings.Join(parts, ", ") + ")")
 	}
@@ -412,7 +458,11 @@ func render(field string, args map[string]Lit, subs []Sub) string {
 		b.WriteString(" }")
 	}
 	b.WriteString(" }")
-	return b.String()
+	text := b.String()
+	if len(vs.decl) > 0 {
+		text = "query Q(" + strings.Join(vs.decl, ", ") + ") " + text
+	}
+	return text, vs.vals
 }
 
 // Rec is one merge scenario.
@@ -530,11 +580,12 @@ func scenario(r *rand.Rand, i, nq int) (Rec, error) {
 			if len(q.Subs) > 0 && len(part.Subs) == 0 {
 				part.Subs = append(part.Subs, Sub{Field: "__typename"})
 			}
-			part.Text = render(q.Field, q.Args, part.Subs)
+			var vals map[string]interface{}
+			part.Text, vals = render(q.Field, q.Args, part.Subs)
 			q.Parts[sid] = part
 			for j, v := range vs {
 				key := fmt.Sprintf("s%d/v%d", s+1, j+1)
-				ok, why := accepts(v, part.Text)
+				ok, why := accepts(v, part.Text, vals)
 				q.Accept[key] = ok
 				q.Why[key] = why
 			}
